@@ -114,7 +114,11 @@ pub fn idfree(db: &Database, texts: &BTreeMap<String, String>) -> String {
     let search = guard(|| {
         db.global_search("")
             .iter()
-            .map(|p| format!("{}|{}|{}|{}|{}", p.node_rank, p.key, p.line, p.root, p.search_text))
+            .map(|p| {
+                // the chain of texts a client is shown for the hit (graph.rs path_texts) is part of the observation
+                let chain = p.path.ids().iter().map(|id| graph.get_text(*id).trim().to_string()).collect::<Vec<_>>().join(" > ");
+                format!("{}|{}|{}|{}|{}|{}", p.node_rank, p.key, p.line, p.root, p.search_text, chain)
+            })
             .collect::<Vec<_>>()
     })
     .unwrap_or_else(|e| vec![format!("PANIC {}", e)]);
